@@ -476,7 +476,12 @@ def dev_breaks(rng, d):
     v, s = rng.choice(vs)
     lo = (s['earliest'][1] - BASE) // H
     hi = ((s['end'][1] - BASE) // H) if (s['end'] and s['end'][1] is not None) else lo + 20
-    k = rng.below(14)
+    k = rng.below(15)
+    if k == 14:
+        s['breaks'] = [['otw', [T((lo + 1) * H), T((lo + 2) * H)]], ['otw', [T((hi + 1) * H), T((hi + 2) * H)]]]
+        if rng.chance(1, 2):
+            s['breaks'].reverse()
+        return 'one-break-inside-one-after-shift'
     if k == 0:
         s['breaks'] = [['otw', [T((hi + 1) * H), T((hi + 2) * H)]]]
         return 'break-after-shift'
@@ -565,6 +570,11 @@ def dev_reloads(rng, d):
     elif k == 5:
         r['resource'] = 'nores'
         lab = 'reload-unknown-resource'
+        if rng.chance(1, 2):          # a second reload with a known resource next to it
+            d['resources'] = d['resources'] or ['res1']
+            other = {'times': None, 'resource': d['resources'][0]}
+            s['reloads'] = [other, r] if rng.chance(1, 2) else [r, other]
+            return 'reload-known-and-unknown-resource'
     elif k == 6:
         d['resources'] = ['res1', 'res1']
         r['resource'] = 'res1'
@@ -600,10 +610,12 @@ def dev_profiles(rng, d):
     return 'no-vehicles'
 
 
-DEVIATIONS = [dev_dup_job_id, dev_reserved_id, dev_demand_presence, dev_unbalance, dev_pd_times, dev_pd_times, dev_pd_times,
-              dev_rs_times, dev_rs_times, dev_pd_three, dev_empty_job, dev_empty_task_list, dev_duration, dev_neg_demand,
-              dev_empty_vectors, dev_over8, dev_capacity_empty, dev_dup_type, dev_shift_times, dev_shift_times, dev_shift_times,
-              dev_breaks, dev_breaks, dev_breaks, dev_offset_bad_start, dev_reloads, dev_reloads, dev_costs, dev_profiles]
+DEVIATIONS = [dev_dup_job_id, dev_reserved_id, dev_demand_presence, dev_unbalance, dev_unbalance, dev_pd_times, dev_pd_times, dev_pd_times,
+              dev_pd_times, dev_empty_job, dev_empty_task_list, dev_duration, dev_neg_demand, dev_dup_type, dev_shift_times,
+              dev_shift_times, dev_shift_times, dev_breaks, dev_breaks, dev_breaks, dev_reloads, dev_reloads, dev_costs, dev_profiles]
+# deviations that (mostly) land in a known deviation class: kept, but rarer
+KNOWN_DEVIATIONS = [dev_rs_times, dev_rs_times, dev_pd_three, dev_pd_three, dev_empty_vectors, dev_over8, dev_capacity_empty,
+                    dev_offset_bad_start]
 
 
 def gen_doc_case(rng):
@@ -613,7 +625,10 @@ def gen_doc_case(rng):
         r = rng.below(100)
         n = 0 if r < 33 else (1 if r < 82 else 2)
         for _ in range(n):
-            lab = rng.choice(DEVIATIONS)(rng, d)
+            try:
+                lab = rng.choice(KNOWN_DEVIATIONS if rng.chance(1, 7) else DEVIATIONS)(rng, d)
+            except (IndexError, KeyError, TypeError):      # the deviation does not apply to this document (e.g. no vehicle left)
+                lab = None
             if lab:
                 labs.append(lab)
         if len(py_known(d)) <= 1:
